@@ -5,7 +5,7 @@ import runlib as R
 ID = 'C09'
 COQ_TARGETS = ['Props/Properties_C09.vo']
 PROPS_FILES = ['Props/Properties_C09.v']
-THEOREMS = ['C09_b64decode_safe', 'C09_b64_roundtrip', 'C09_b64_valid_accepted', 'C09_b64_alphabet',
+THEOREMS = ['C09_b64decode_safe', 'C09_b64_roundtrip', 'C09_b64_roundtrip_exact', 'C09_b64_valid_accepted', 'C09_b64_alphabet',
             'C09_b64_strict_partial', 'C09_b64_strict_refuted']
 ENGINES = [
     dict(name='b64', c_sources=['b64_h.c'], extract='Extract/Extract_b64.v', driver='b64_driver.ml',
